@@ -30,12 +30,44 @@ type World struct {
 	helmFns  []*ssa.Function // every function (incl. anonymous, methods) of helm module packages
 	fnByName map[string]*ssa.Function
 
-	InlineLog []string // what inline.go expanded / kept
+	InlineLog []string          // what inline.go expanded / kept
+	Renamed   map[string]string // new key -> reference key
+	RenamedTo map[string]string // reference key -> new key
+}
+
+// typeNameAlias: "import/path.NewName" -> name on the reference tree, for types renamed since.
+var typeNameAlias = map[string]string{}
+
+func refTypeName(o *types.TypeName) string {
+	if len(typeNameAlias) > 0 && o.Pkg() != nil {
+		if a, ok := typeNameAlias[o.Pkg().Path()+"."+o.Name()]; ok {
+			return a
+		}
+	}
+	return o.Name()
+}
+
+// displayName renders a reference key ("pkg/action:Install.failRelease" with signature "(*)…") the way
+// FuncName does: "(*pkg/action.Install).failRelease".
+func displayName(key, sig string) string {
+	pkg, rest, _ := strings.Cut(key, ":")
+	if i := strings.Index(rest, "."); i >= 0 {
+		recv, name := rest[:i], rest[i+1:]
+		if strings.HasPrefix(sig, "(*)") {
+			return "(*" + pkg + "." + recv + ")." + name
+		}
+		return "(" + pkg + "." + recv + ")." + name
+	}
+	return pkg + "." + rest
 }
 
 // RefList is the set of function keys of the reference tree (reference/funcs.txt); nil disables the
 // normalisation of extract-function refactorings (inline.go).
-var RefList map[string]bool
+var RefList map[string]string
+
+// funcNameAlias maps the display name of a renamed function to its name on the reference tree, so that
+// rule tables and obligation keys stay those of the reference tree (filled by Load).
+var funcNameAlias = map[string]string{}
 
 func loadPkgs(repoDir, goos, goarch string, fset *token.FileSet, overlay map[string]*ast.File) ([]*packages.Package, error) {
 	env := append(os.Environ(), "GOWORK=off", "GOFLAGS=-mod=mod", "GOPROXY=off", "CGO_ENABLED=0")
@@ -86,10 +118,36 @@ func Load(repoDir, goos, goarch string) (*World, error) {
 	fset := token.NewFileSet()
 	w := &World{RepoDir: repoDir, Fset: fset, GOOS: goos, GOARCH: goarch, fnByName: map[string]*ssa.Function{}}
 	needInline := false
+	known := map[string]bool{}
 	if RefList != nil {
+		for k := range RefList {
+			known[k] = true
+		}
 		if keys, err := refKeys(repoDir); err == nil {
+			w.Renamed = detectRenames(RefList, keys)
+			w.RenamedTo = map[string]string{}
+			for nk, ok := range w.Renamed {
+				known[nk] = true // a renamed function is not a new helper
+				if strings.Contains(nk, ":type:") {
+					w.RenamedTo[ok] = nk
+					pkg, newT, _ := strings.Cut(nk, ":type:")
+					_, oldT, _ := strings.Cut(ok, ":type:")
+					typeNameAlias[helmMod+"/"+pkg+"."+newT] = oldT
+					w.InlineLog = append(w.InlineLog, "renamed type: "+ok+" is now "+nk)
+					continue
+				}
+				w.RenamedTo[ok] = nk
+				w.InlineLog = append(w.InlineLog, "renamed: "+ok+" is now "+nk)
+				// closure-bound locals of a renamed function keep their reference status
+				for k := range keys {
+					if strings.HasPrefix(k, nk+"/var:") && RefList[ok+strings.TrimPrefix(k, nk)] != "" {
+						known[k] = true
+					}
+				}
+				funcNameAlias[displayName(nk, keys[nk])] = displayName(ok, RefList[ok])
+			}
 			for k := range keys {
-				if !RefList[k] {
+				if !known[k] {
 					needInline = true
 					break
 				}
@@ -104,8 +162,8 @@ func Load(repoDir, goos, goarch string) (*World, error) {
 		return nil, err
 	}
 	if needInline {
-		overlay, log, undo := planAndInline(w, RefList)
-		w.InlineLog = log
+		overlay, log, undo := planAndInline(w, known)
+		w.InlineLog = append(w.InlineLog, log...)
 		if len(overlay) > 0 {
 			pkgs2, err2 := loadPkgs(repoDir, goos, goarch, fset, overlay)
 			var cerr error
@@ -195,6 +253,29 @@ func (w *World) HelmPkg(rel string) *packages.Package { return w.All[helmMod+"/"
 
 // Obj resolves a package-level object ("Name") or a method ("Type.Method") in a package.
 func (w *World) Obj(pkgPath, name string) types.Object {
+	if o := w.obj1(pkgPath, name); o != nil {
+		return o
+	}
+	// renamed since the reference tree?
+	if rel := strings.TrimPrefix(pkgPath, helmMod+"/"); rel != pkgPath && w.RenamedTo != nil {
+		if nk, ok := w.RenamedTo[rel+":"+name]; ok {
+			_, rest, _ := strings.Cut(nk, ":")
+			return w.obj1(pkgPath, rest)
+		}
+		// a renamed type: "Old" or "Old.Method"
+		tname, meth, hasM := strings.Cut(name, ".")
+		if nt, ok := w.RenamedTo[rel+":type:"+tname]; ok {
+			_, rest, _ := strings.Cut(nt, ":type:")
+			if hasM {
+				return w.obj1(pkgPath, rest+"."+meth)
+			}
+			return w.obj1(pkgPath, rest)
+		}
+	}
+	return nil
+}
+
+func (w *World) obj1(pkgPath, name string) types.Object {
 	p := w.All[pkgPath]
 	if p == nil || p.Types == nil {
 		return nil
@@ -297,6 +378,27 @@ func FuncName(fn *ssa.Function) string {
 	}
 	s := fn.String()
 	s = strings.ReplaceAll(s, helmMod+"/", "")
+	if len(funcNameAlias) > 0 {
+		base, rest := s, ""
+		if i := strings.Index(s, "$"); i >= 0 {
+			base, rest = s[:i], s[i:]
+		}
+		if a, ok := funcNameAlias[base]; ok {
+			return a + rest
+		}
+	}
+	return s
+}
+
+// refBareName: the function's own name on the reference tree (renames undone).
+func refBareName(fn *ssa.Function) string {
+	s := FuncName(fn)
+	if i := strings.LastIndex(s, "."); i >= 0 {
+		s = s[i+1:]
+	}
+	if i := strings.Index(s, "$"); i >= 0 {
+		s = s[:i]
+	}
 	return s
 }
 
